@@ -1983,6 +1983,12 @@ class Identifier(str):
     def __hash__(self) -> int:
         return super().__hash__()
 
+    def __getnewargs_ex__(self) -> tuple[tuple[str], dict[str, TokenT]]:
+        # `token` is a required keyword argument of `__new__`. Without this,
+        # a pickled identifier, and any template containing one, can not be
+        # unpickled.
+        return ((str(self),), {"token": self.token})
+
 
 def parse_identifier(token: TokenT) -> Identifier:
     """Parse _token_ as an identifier."""
